@@ -45,6 +45,22 @@ def text_pool():
     t.append("DS_r <- f1(DS_1, DS_2);")
     for v in ("Z", "Q"):
         t.append(VP.format(n="vp", v=v) + "\nDS_r <- DS_1 + DS_2;")
+    # texts that get past the parser and fail later (AST construction, DAG), placed *after* definitions
+    # that the AST builder has already recorded when the failure happens
+    fail_tails = ["define operator g1 (x dataset) is x * 2 end operator;\nDS_r <- g1(DS_1);",      # 1-3-2-2: no 'returns'
+                  "DS_r <- time_agg(\"A\");",                                                       # 1-3-2-4: no operand
+                  "DS_r <- lag(DS_1 over (partition by Id_1 order by Id_2));",                        # offset missing
+                  "DS_a <- DS_b + 1; DS_b <- DS_a + 1;",                                              # cycle
+                  "DS_r := DS_1; DS_r := DS_2;",                                                      # overwriting
+                  "DS_r <- eval(f(DS_1) returns dataset {identifier<integer> Id_1});",                # eval without language
+                  "DS_r <- DS_1 +;"]                                                                  # syntax error
+    heads = [HR.format(n="HR_1", c="Id_2"), HR.format(n="HR_1", c="Id_3"), HR.format(n="HR_2", c="Id_2"),
+             DPR.format(n="dpr_1", c="Me_1"), UDO.format(n="f1", t="dataset", o="+"), VP.format(n="vp", v="Z"),
+             HR.format(n="HR_1", c="Id_2") + "\n" + UDO.format(n="f1", t="scalar", o="*")]
+    for h in heads:
+        for ft in fail_tails:
+            t.append(h + "\n" + ft)
+    t += fail_tails
     t += ["DS_r <- DS_1 + DS_2; /* c1 */ DS_s := DS_r[filter Me_1 > 1]; // tail",
           "/* only a comment */", "", "   \n\n", "DS_r <- DS_1 +;", "DS_r <- ;", "define hierarchical ruleset HR_1 (variable rule Id_2) is A = end",
           "DS_r <- DS_1[calc Me_2 := Me_1 * 2][filter Me_2 > 3][keep Me_2];",
@@ -54,10 +70,48 @@ def text_pool():
     return t
 
 
+def confusable(rng, txt):
+    """A text that a too-coarse memo key (stripped / lower-cased / whitespace-collapsed / comment-free /
+    prefix / length) would confuse with `txt`, while its parse result differs (positions, names, comments)."""
+    k = rng.randrange(10)
+    if k == 0:
+        return rng.choice(["\n", "\n\n\n", "  ", "\t", " \n "]) + txt
+    if k == 1:
+        return txt + rng.choice(["\n", "  ", "\n\n"])
+    if k == 2:
+        return txt.replace(" ", "  ", 1) if " " in txt else txt + " "
+    if k == 3:
+        return txt.replace("DS_1", "ds_1") if "DS_1" in txt else txt.upper()
+    if k == 4:
+        return "/* note */ " + txt
+    if k == 5:
+        return txt.replace(";", "; // x\n", 1) if ";" in txt else txt
+    if k == 6:
+        return txt.replace("DS_1", "DS_2", 1) if "DS_1" in txt else txt     # same length, same shape
+    if k == 7:
+        return txt.replace("Id_2", "Id_3") if "Id_2" in txt else txt.replace("Me_1", "Me_2")
+    if k == 8:
+        return txt + "\nDS_zz <- DS_1;"                                      # same prefix
+    return txt.replace("\n", " ")
+
+
+def _stem(txt):
+    """Texts that differ only by what confusable() changes share a stem."""
+    import re
+
+    t = re.sub(r"/\*.*?\*/|//[^\n]*", "", txt)
+    t = re.sub(r"\s+", "", t).lower()
+    return re.sub(r"ds_\d|id_\d|me_\d", "x", t)[:60]
+
+
 def make_call(rng, texts, corpus_entries):
     r = rng.random()
     if r < 0.75 or not corpus_entries:
         txt = rng.choice(texts)
+        if rng.random() < 0.35:
+            # a bounded family of variants per text (seeded by the text), so that the number of distinct calls -
+            # each needs a pristine-process reference - stays bounded
+            txt = confusable(random.Random(len(txt) * 31 + rng.randrange(3)), txt)
         api = rng.choice(["create_ast", "create_ast", "prettify", "semantic_analysis", "generate_sdmx"])
         op = {"api": api, "script": txt, "structures": ST if api == "semantic_analysis" else None, "data": None,
               "kwargs": ({"agency_id": "MD", "id": "T1"} if api == "generate_sdmx" else {}), "env": {}, "output_folder": False}
@@ -197,10 +251,29 @@ def run(ctx):
     areas = ("Hierarchical", "DatapointRulesets", "UDO", "ViralAttributes", "Validation")
     cps = [e for e in corpus.discover() if e["id"].split("/")[0] in areas and e["bytes"] < 20000]
     cps = rng.sample(cps, min(40 if quick else 400, len(cps)))
+    # a bounded pool of distinct calls (each needs one pristine-process reference; forks are the
+    # bottleneck at ~40/s on this machine), histories draw from the pool
+    pool_n = 450 if quick else 12000
+    pool = {}
+    for _ in range(pool_n * 3):
+        op = make_call(rng, texts, cps)
+        pool.setdefault(_key(op), op)
+        if len(pool) >= pool_n:
+            break
+    pool = list(pool.values())
+    by_stem = {}
+    for op in pool:
+        by_stem.setdefault(_stem(op.get("script") or ""), []).append(op)
+    stems = sorted(by_stem)
     hist = []
     for h in range(n):
         k = rng.choice([2, 2, 3, 3, 4, 5, 6, 8])
-        hist.append((h, [make_call(rng, texts, cps) for _ in range(k)]))
+        if rng.random() < 0.5:
+            # a small working set per history, so that variants of the same text (and definitions and uses of the same names) meet
+            ws = [op for st in rng.sample(stems, min(2, len(stems))) for op in by_stem[st]]
+            hist.append((h, [rng.choice(ws) for _ in range(k)]))
+        else:
+            hist.append((h, [rng.choice(pool) for _ in range(k)]))
     distinct = {}
     for _h, calls in hist:
         for op in calls:
